@@ -92,8 +92,8 @@ PROPS = {
         'targets': ['Corr/Dispatch.vo', 'Proto/Run.vo'],
     },
     'C01': {
-        'level_text': "Theorems on the symbolic AKE for all messages and states: the reported peer key changes only after the m2-MAC, the decryption under c and the signature check over M (both DH values, key, key id) all passed, otherwise nothing changes; out-of-range DH values never pass; completion installs the session id / role of that exchange; mirrored session keys. Every run, compared with the machine: the AKE sweep (every key-exchange message x 28 mutations incl. authenticated-but-unparsable X and a participant claiming somebody else's key x {before, after the genuine message} x fresh/refresh), random handshakes with cross-session replay, duplicates, a re-signing impersonator; the numeric group-range check vs the code. Oracles: an encrypted conversation reports a key whose owner's signature message it received (also right after a rejected message), the exchange completes after a rejected copy, equal ssid implies complementary halves and mutual readability.",
-        'level_note': 'the global invariant over all histories (ake_auth_inv) is not yet proved as one theorem; unforgeability of DSA/HMAC is the symbolic idealisation.',
+        'level_text': "Theorems: C01_encrypted_implies_peer_signed_this_exchange - for EVERY history of calls on a conversation (arbitrary input in any order: modified, truncated, injected, duplicated, replayed from other sessions; Send / End / SMP calls in between), if it reports itself encrypted then it has received a signature made by the owner of exactly the peer key it reports, over M = (MAC key of the session secret, the peer's D-H value, our D-H value, that key, key id), the reported session id being the one of the secret of exactly these two values and the peer's value being in range (invariant over the history: consistency of the exchange context while the Signature message is awaited + authentication of the reported key / session id; every definition of the machine walked through, the accepting branches proved by hand; Proto/AkeAuth.v). Also per message: the reported peer key changes only after the m2-MAC, the decryption under c and the signature check over M all passed, otherwise nothing changes; out-of-range DH values never pass; completion installs the session id / role of that exchange; mirrored session keys. Every run, compared with the machine: the AKE sweep (every key-exchange message x 28 mutations incl. authenticated-but-unparsable X and a participant claiming somebody else's key x {before, after the genuine message} x fresh/refresh), random handshakes with cross-session replay, duplicates, a re-signing impersonator; the numeric group-range check vs the code. Oracles: an encrypted conversation reports a key whose owner's signature message it received (also right after a rejected message), the exchange completes after a rejected copy, equal ssid implies complementary halves and mutual readability.",
+        'level_note': 'symbolic model: that a signature term can only come from the holder of the private key, that the MAC / encryption keys of another secret do not verify / decrypt, and that the secret of two D-H values is known only to their holders are the idealisations of DSA, HMAC/AES and CDH; agreement of BOTH sides on the session (equal ssid, complementary halves) is decided by the correspondence runs and the oracle.',
         'trusted': ['the conversation model is symbolic: DH values are exponent ids, shared secrets unordered pairs, keys (secret, role) terms, a MAC verifies iff it was computed with the same key over the same fields (perfect-cryptography idealisation)', 'internal projections (key ids, list lengths, state names) are read through the verif-tagged hook VerifSnapshot'],
         'assumptions': ['EUF-CMA of DSA and HMAC-SHA256, CDH in the 1536-bit group'],
         'targets': ['Corr/Dispatch.vo', 'Proto/Run.vo'],
